@@ -248,10 +248,10 @@ type c10Spec struct {
 	Version     int
 	Compression string
 	K           int
-	Senders     int     // concurrent sender goroutines
-	Order       []int   // answer order (indices of requests); -1 = EVENT, -2 = spurious response
-	PagesPer    []int   // pages per request (DSE versions only may be > 1)
-	Batch       bool    // v5: all responses in as few segments as possible
+	Senders     int   // concurrent sender goroutines
+	Order       []int // answer order (indices of requests); -1 = EVENT, -2 = spurious response
+	PagesPer    []int // pages per request (DSE versions only may be > 1)
+	Batch       bool  // v5: all responses in as few segments as possible
 	MaxPending  int
 }
 
